@@ -186,10 +186,14 @@ func theGRPCServer() *grpc.Server {
 type grpcCase struct {
 	RegisterJSON bool     `json:"register_json"` // a "json" gRPC codec is registered (process-wide, irreversible)
 	MaxMsg       uint32   `json:"max_msg,omitempty"`
+	// CallerCodecs: the caller passes WithDefaultServiceOptions(WithTargetCodecs(...)) of its own to
+	// vanguardgrpc.NewTranscoder (codecs the server has); the by-name reference registers the
+	// services with these codecs.
+	CallerCodecs []string `json:"caller_codecs,omitempty"`
 	Sc           Scenario `json:"scenario"`
 }
 
-const ruleC20grpc = " Second generator (registry clause): the same scenarios against a real grpc.Server fronted by vanguardgrpc.NewTranscoder and, as reference, by vanguard.NewTranscoder with the services registered by name with the documented options (target protocol gRPC; codecs proto plus json iff a json gRPC codec is registered); the server's generic implementation answers from the script and records calls, metadata and decoded requests. Client observations and the server's record must be identical."
+const ruleC20grpc = " Second generator (registry clause): the same scenarios against a real grpc.Server fronted by vanguardgrpc.NewTranscoder and, as reference, by vanguard.NewTranscoder with the services registered by name with the documented options (target protocol gRPC; codecs proto plus json iff a json gRPC codec is registered, or the codec list the caller passes as a default service option of its own); the server's generic implementation answers from the script and records calls, metadata and decoded requests. Client observations and the server's record must be identical."
 
 func init() {
 	registerProp(&propDef{ID: "C20", Rule: ruleC20 + ruleC20grpc, Replay: func(raw json.RawMessage) (*CheckResult, error) {
@@ -232,6 +236,13 @@ func TestC20(t *testing.T) {
 			// reaches the client first is a legitimate race, not a property of the registration route.
 			genLibraryScenario(t, &c.Sc)
 			c.Sc.Config = Config{}
+			if rapid.IntRange(0, 2).Draw(t, "caller_codecs") == 0 {
+				lists := [][]string{{CodecProto}}
+				if c.RegisterJSON {
+					lists = [][]string{{CodecProto}, {CodecJSON}, {CodecJSON, CodecProto}}
+				}
+				c.CallerCodecs = append([]string(nil), rapid.SampledFrom(lists).Draw(t, "caller_codec_list")...)
+			}
 			judge(t, "C20", c, checkC20grpc(c))
 			return
 		}
@@ -277,11 +288,17 @@ func runC20grpc(viaRegistry bool, c *grpcCase) (string, string, *Outcome, error)
 	var tr *vanguard.Transcoder
 	var err error
 	if viaRegistry {
+		if len(c.CallerCodecs) > 0 {
+			topts = append(topts, vanguard.WithDefaultServiceOptions(vanguard.WithTargetCodecs(c.CallerCodecs...)))
+		}
 		tr, err = vanguardgrpc.NewTranscoder(srv, topts...)
 	} else {
 		codecs := []string{vanguard.CodecProto}
 		if encoding.GetCodec(vanguard.CodecJSON) != nil {
 			codecs = append(codecs, vanguard.CodecJSON)
+		}
+		if len(c.CallerCodecs) > 0 {
+			codecs = c.CallerCodecs
 		}
 		so := []vanguard.ServiceOption{vanguard.WithTargetProtocols(vanguard.ProtocolGRPC), vanguard.WithTargetCodecs(codecs...)}
 		if c.MaxMsg != 0 {
